@@ -5,7 +5,8 @@ open Spine.Snd
 /-! Line protocol for the sender model (C13). One op per line, one answer per line.
     State: the event-sourced model `Spine.SndEv.St` (its `base` is the sequential `Spine.Snd.St`) and the family flag
     `insertFirst` (set by `cfg insertfirst 0|1` after the harness probed the tree under test; survives `reset`).
-    `member` answers the STATIC family flag regenerated from the source (1: the request is remembered before the write).
+    `member` answers the STATIC family member regenerated from the source: `before` (the request is remembered before the
+    write), `after-window` (after it, and a response can be processed in between), `after-nowindow`.
     `reqf h r` is a `Request` during whose write a response referencing counter `r` is processed (`r = 0`: the
     request's own counter): the events `reqBegin`, `plain (response …)`, `reqEnd` of `Spine.SndEv`. -/
 
@@ -42,7 +43,10 @@ partial def loop (h out : IO.FS.Stream) (f : Bool) (es : Spine.SndEv.St) : IO Un
     | ["cfg", "insertfirst", v] => match v.toNat? with
       | some v => (v != 0, es, "ok")
       | none => (f, es, "bad-op")
-    | ["member"] => (f, es, if Spine.Generated.Sender.requestRemembersBeforeWrite then "1" else "0")
+    | ["member"] => (f, es,
+        if Spine.Generated.Sender.requestRemembersBeforeWrite then "before"
+        else if Spine.Generated.Sender.responsePathSkipsRequestMutex && Spine.Generated.Sender.writeOutsideCacheLock then "after-window"
+        else "after-nowindow")
     | ["reset"] => (f, {}, "reset")
     | _ => (f, es, "bad-op")
   out.putStrLn ans
